@@ -305,17 +305,11 @@ func C08(t Tier) int {
 	if t.Thorough {
 		depth = map[string]int{"empty": 4, "populated": 4}
 	}
-	totalStates, totalTrans := 0, int64(0)
 	depth["bulk"] = 1
 	for _, base := range []string{"empty", "populated", "bulk"} {
 		sys := c08System(base)
 		RunGraph(run, sys, []explore.Bounds{{Depth: depth[base], V: 1, Deadline: dl}}, 4)
-		totalStates += run.Coverage["states"].(int)
-		totalTrans += run.Coverage["transitions"].(int64)
-		run.Coverage["states_"+base] = run.Coverage["states"]
 	}
-	run.Coverage["states"] = totalStates
-	run.Coverage["transitions"] = totalTrans
 	run.Assumptions = []string{
 		"alphabet: the valid, state-shaping subset of the AOL, DID and PNFT alphabets (transferred token, handed-over denom, deleted and re-created denom, deactivated DID, rich DID document, empty record key/value, '/' and JSON in record bytes, writer deleted and re-added)",
 		"per distinct state: export twice (byte-identical), custom modules' ValidateGenesis, InitChain of a fresh app, aol/did stores byte-identical, PNFT query matrix identical, re-export of aol/did/pnft/burn sections byte-identical",
